@@ -89,6 +89,11 @@ def checkLine (line : String) : String :=
     | some a, some b, some x, some y, some z =>
       if Spec.closedPrefix a x && b.head? != some BOM && y.outcome == .ok then fmtVerdict (Spec.C15 a b x y z) else "n/a"
     | _, _, _, _, _ => "badinput"
+  | ["C15m", hexA, hexB, dA, dB, dAB, dAm] =>
+    match charsOfHex hexA, charsOfHex hexB, parseDump dA, parseDump dB, parseDump dAB, parseDump dAm with
+    | some a, some b, some x, some y, some z, some m =>
+      if Spec.closedPrefix a m && b.head? != some BOM && y.outcome == .ok then fmtVerdict (Spec.C15m a b x y z m) else "n/a"
+    | _, _, _, _, _, _ => "badinput"
   | ["C16", hex, hex2, d1, d2] =>
     match charsOfHex hex, charsOfHex hex2, parseDump d1, parseDump d2 with
     | some s, some s2, some a, some b => fmtVerdict (Spec.C16 s s2 a b)
